@@ -95,7 +95,7 @@ macro_rules! drop_harness {
     };
 }
 
-// @harness props=C20,C03,C08 tier=thorough timeout=7200 mem=40 stubbing=1 replay=scenario:close flavor=nodebug
+// @harness props=C20,C03,C08 tier=thorough timeout=3600 mem=40 stubbing=1 replay=scenario:close flavor=nodebug attempt=1
 // @desc (attempted: the single harness over all four booleans did not close in 2400 s) Database drop against a write transaction, in the named drop order (db_first / guard_first) with the named writer state, with/without a latched storage failure, with/without needs_repair: after both handles are gone the backend's close() has run EXACTLY once and nothing touched the backend afterwards; while the write transaction is still live after the Database was dropped the backend is NOT yet closed; the shutdown commit is attempted at most once and never when needs_repair is set
 // @functions Drop for Database, Drop for TransactionGuard, close_database, TransactionTracker::{defer_close_if_write_transaction_live,end_write_transaction,start_write_transaction}, TransactionalMemory::{close,flush_shutdown_header,needs_repair,storage_failure}, PagedCachedFile::{close,check_io_errors}, CheckedBackend::{close,check_failure}
 // @bound one Database handle, at most one write transaction guard; drop order and writer presence fixed per harness, failure and needs_repair arbitrary
@@ -135,7 +135,7 @@ fn stub_rebuild(
 
 fn no_callback(_s: &mut RepairSession) {}
 
-// @harness props=C01,C12 tier=thorough timeout=7200 mem=40 stubbing=1 flavor=nodebug replay=scenario:crash
+// @harness props=C01,C12 tier=thorough timeout=3600 mem=40 stubbing=1 flavor=nodebug replay=scenario:crash attempt=1
 // @desc (attempted: did not close in 1800 s in the quick tier) Database::do_repair for every recovered header state and every answer of the tree-verification oracle: it ends on a slot that verifies; it falls back to the secondary exactly when the primary does not verify and the 2PC flag is clear; a primary that does not verify under the 2PC flag, or two slots that do not verify, yield an error WITHOUT any header write (so the recovery flag stays set); the allocator state is rebuilt from the slot that verified; recovery_required is cleared only after that, by exactly one header write followed by one flush
 // @functions Database::{do_repair,primary_verifies}, TransactionalMemory::{repair_primary_corrupted,used_two_phase_commit,clear_recovery_required,clear_read_cache}, DatabaseHeader::swap_primary_slot
 // @bound header with two arbitrary valid slots, primary index, 2PC flag and the oracle's answer per slot arbitrary
